@@ -388,3 +388,16 @@ package vals
 //@   nosafety
 //@   nowrite
 //@   skip pre:indexList
+
+// C08 (structural part): the hash of a map sums one term per entry of the
+// iteration and stops only when the iterator is exhausted - every entry
+// contributes, whatever the size of the map. (Order independence of the sum is
+// what makes eq maps with different insertion orders hash alike.)
+//@ func hashMap
+//@   props C08
+//@   nosafety
+//@   opaque Hash
+//@   log Iterator.HasElem Iterator.Elem Iterator.Next
+//@   loop 1 invariant ncallsof("Iterator.HasElem") == ncallsof("Iterator.Next") && ncallsof("Iterator.Elem") == ncallsof("Iterator.Next")
+//@   exit [every-entry-contributes] ncallsof("Iterator.Elem") == ncallsof("Iterator.Next") && ncallsof("Iterator.HasElem") == ncallsof("Iterator.Elem") + 1
+//@   exit [stops-only-when-exhausted] callis(ncalls - 1, "Iterator.HasElem") && !callres(ncalls - 1).(bool)
